@@ -268,7 +268,7 @@ var forms = []string{
 	"mexpr-val", "mexpr-ptr",
 	"iface-val", "iface-addr", "iface-val-bump", "iface-addr-bump",
 	"assert-typed", "assert-empty", "assert-anon",
-	"tswitch-typed", "tswitch-empty",
+	"tswitch-typed", "tswitch-empty", "tswitch-overlap",
 	"nil-call", "nil-assert", "nil-tswitch",
 }
 
@@ -410,6 +410,25 @@ func genScenario(r *rand.Rand, ts []TypeDecl, form string) Prog {
 		}
 		add(Stmt{Op: "iface", X: "i", T: it, R: src})
 		add(genSwitch(r, ts, t, "i", it))
+	case "tswitch-overlap":
+		// interface{} operand, binding form, clauses naming interface types (several may match)
+		src := ifaceSrc(r)
+		if src.Kind == "ptrvar" {
+			add(Stmt{Op: "ptr", X: "p", Y: "v"})
+		}
+		add(Stmt{Op: "iface", X: "i", T: -1, R: src})
+		_, is := structIDs(ts)
+		sw := Stmt{Op: "tswitch", Y: "i", Bind: r.Intn(100) < 85}
+		for _, k := range r.Perm(len(is)) {
+			sw.Clauses = append(sw.Clauses, []TyRef{{Kind: "named", Typ: is[k]}})
+		}
+		if r.Intn(2) == 0 {
+			at := r.Intn(len(sw.Clauses) + 1)
+			cl := append([][]TyRef{}, sw.Clauses[:at]...)
+			cl = append(cl, []TyRef{})
+			sw.Clauses = append(cl, sw.Clauses[at:]...)
+		}
+		add(sw)
 	case "nil-call":
 		it := pickIface(r, ts, t, true)
 		add(Stmt{Op: "iface", X: "i", T: it, R: &Recv{Kind: "nil"}})
